@@ -87,3 +87,25 @@ func zzDiffFormats(ops []byte) {
 	zzvt.Assert(a.Registers == b.Registers, "same-registers")
 	zzvt.Assert(a.Gas == b.Gas, "same-gas")
 }
+
+// ZZ_C02_diff_two_reg_imm: every two-registers-and-one-immediate handler (opcodes 120..161)
+// in both engines on the same instruction bytes (registers byte and a four-byte immediate, all
+// arbitrary) and the same arbitrary registers: same exit, counter, registers and gas. (The
+// per-opcode results against appendix A are the C01 harnesses; this is the agreement of the
+// two engines for the whole format.)
+//zz:workers=16 paths=60000 conccap=260
+func ZZ_C02_diff_two_reg_imm() {
+	op := byte(zzvt.Range("op", 120, 161))
+	pc := 1
+	w := zzWindowB(pc+6, pc, op, false)
+	regs := zzSymRegs()
+	a, b := w.interp(regs, 5), w.interp(regs, 5)
+	var ea, eb ExitReason
+	var pa, pb ProgramCounter
+	zzvt.Assert(!zzvt.Try(func() { ea, pa = w.run(a, false) }), "block-engine-no-go-panic")
+	zzvt.Assert(!zzvt.Try(func() { eb, pb = w.run(b, true) }), "single-step-engine-no-go-panic")
+	zzvt.Assert(ea == eb, "same-exit-reason")
+	zzvt.Assert(pa == pb, "same-next-counter")
+	zzvt.Assert(a.Registers == b.Registers, "same-registers")
+	zzvt.Assert(a.Gas == b.Gas, "same-gas")
+}
